@@ -18,7 +18,7 @@ THEOREMS = ["Tx3.C20_history_independent", "Tx3.C20_needs_reset"]
 RULE = (
     "cases = (history, target): history = 0..4 earlier resolve_tx calls on the same Compiler (templates with 0-5 "
     "outputs, with/without min_utxo of their last output, some failing for lack of funds), target = another such "
-    "template; the same target is also resolved on a fresh Compiler; a quarter of the templates are validity templates (since_slot later than the chain point, tip_slot / slot_to_time / time_to_slot in bounds and metadata). Non-trivial = non-empty history; distinct = "
+    "template; the same target is also resolved on a fresh Compiler; a width-boundary sweep (price per byte 280..420 for two min-utxo templates after a history of two resolutions); the price per byte varies over the random plans; a quarter of the templates are validity templates (since_slot later than the chain point, tip_slot / slot_to_time / time_to_slot in bounds and metadata). Non-trivial = non-empty history; distinct = "
     "distinct (history, target)"
 )
 
